@@ -164,21 +164,34 @@ func (x *c13Net) runDeploy(fs []contracts.Contract, opt c13E2EOpt) (map[int]stri
 		}
 		mu.Unlock()
 	}
+	safeDeploy := func(dctx context.Context, m int, prm *deploy.Prm) (err error) {
+		defer func() {
+			if r := recover(); r != nil {
+				err = fmt.Errorf("harness: %v", r)
+			}
+		}()
+		if prm == nil {
+			p := x.deployPrm(m, fs)
+			prm = &p
+		}
+		return deploy.Deploy(dctx, *prm)
+	}
 	for m := 0; m < x.n; m++ {
 		wg.Add(1)
+		prm0 := x.deployPrm(m, fs)
 		go func(m int) {
 			defer wg.Done()
 			if m < len(opt.StartDelay) {
 				x.waitHeight(ctx, start+uint32(opt.StartDelay[m]))
 			}
 			if m != opt.CancelMember {
-				put(m, deploy.Deploy(ctx, x.deployPrm(m, fs)))
+				put(m, safeDeploy(ctx, m, &prm0))
 				return
 			}
 			// this member's process is stopped at an arbitrary block and started again
 			mctx, mcancel := context.WithCancel(ctx)
 			done := make(chan error, 1)
-			go func() { done <- deploy.Deploy(mctx, x.deployPrm(m, fs)) }()
+			go func() { done <- safeDeploy(mctx, m, &prm0) }()
 			go func() { x.waitHeight(ctx, start+uint32(opt.CancelAt)); mcancel() }()
 			err := <-done
 			mcancel()
@@ -190,7 +203,7 @@ func (x *c13Net) runDeploy(fs []contracts.Contract, opt c13E2EOpt) (map[int]stri
 			cancelled = err.Error()
 			mu.Unlock()
 			x.waitHeight(ctx, x.bc.BlockHeight()+uint32(opt.RestartAfter))
-			put(m, deploy.Deploy(ctx, x.deployPrm(m, fs)))
+			put(m, safeDeploy(ctx, m, nil))
 		}(m)
 	}
 	back := make(chan struct{})
@@ -373,38 +386,40 @@ func c13EndToEnd(c *c13) (string, string) {
 	}
 	var fcases []string
 	for i, s := range scs {
-		res := c13RunE2E(c.t, s.opt, int64(7000+i))
+		c13Guard(c, "deploy.Deploy "+s.note, func() any { return s.opt }, func() {
+			res := c13RunE2E(c.t, s.opt, int64(7000+i))
+			c.st.Evaluations += res.Sent
+			c.st.OpHistogram["deploy-run"]++
+			nilCount := 0
+			for _, e := range res.Returned {
+				if e == "" {
+					nilCount++
+				}
+			}
+			out := "converged"
+			switch {
+			case nilCount == s.opt.N:
+				fcases = append(fcases, "(* "+s.note+" *) "+res.coq())
+				c.nontr++
+				ok := res.Notary && res.Alphabet && res.NNSID1 && res.Contracts == 8+s.opt.N && res.Distinct && res.RerunNil == s.opt.N && res.RerunSent == 0
+				for _, v := range res.Names {
+					ok = ok && v == 1
+				}
+				if !ok {
+					out = "wrong-final-state"
+					c.st.AddViolation("deploy.Deploy returned nil for every member but the final state is not the expected one, or the re-run was not idle ("+s.note+")", res)
+				}
+			default:
+				out = "not-converged"
+				c.st.AddViolation(fmt.Sprintf("deploy.Deploy did not return nil for every member within %d blocks (%s): notary role designated=%v", s.opt.Budget, s.note, res.Notary), res)
+			}
+			c.st.OutcomeHistogram["deploy:"+out]++
+			c.st.Extra[fmt.Sprintf("deploy #%d (%s)", i, s.note)] = res
+			if os.Getenv("VERIF_C13_LOG") != "" {
+				fmt.Printf("E2E %s: %s %+v\n", s.note, out, *res)
+			}
+		})
 		c.st.Histories++
-		c.st.Evaluations += res.Sent
-		c.st.OpHistogram["deploy-run"]++
-		nilCount := 0
-		for _, e := range res.Returned {
-			if e == "" {
-				nilCount++
-			}
-		}
-		out := "converged"
-		switch {
-		case nilCount == s.opt.N:
-			fcases = append(fcases, "(* "+s.note+" *) "+res.coq())
-			c.nontr++
-			ok := res.Notary && res.Alphabet && res.NNSID1 && res.Contracts == 8+s.opt.N && res.Distinct && res.RerunNil == s.opt.N && res.RerunSent == 0
-			for _, v := range res.Names {
-				ok = ok && v == 1
-			}
-			if !ok {
-				out = "wrong-final-state"
-				c.st.AddViolation("deploy.Deploy returned nil for every member but the final state is not the expected one, or the re-run was not idle", res)
-			}
-		default:
-			out = "not-converged"
-			c.st.AddViolation("deploy.Deploy did not return nil for every member within the block budget", res)
-		}
-		c.st.OutcomeHistogram["deploy:"+out]++
-		c.st.Extra[fmt.Sprintf("deploy #%d (%s)", i, s.note)] = res
-		if os.Getenv("VERIF_C13_LOG") != "" {
-			fmt.Printf("E2E %s: %s %+v\n", s.note, out, *res)
-		}
 	}
 	return "Definition fcases : list (nat * final_obs) := " + ListLit(fcases) + ".\n", " ++ map check_final fcases"
 }
